@@ -203,8 +203,8 @@ def _hadronic_job(kw):
 
     proj = model.project()
     try:
-        below = O.fold_op(proj, R.Cell(**kw), below_threshold=True, prepare=pair_threshold_regime(-1))
-        above = O.fold_op(proj, R.Cell(**kw), prepare=pair_threshold_regime(+1))
+        below = O.fold_op(proj, R.Cell(**kw), below_threshold="fold", prepare=pair_threshold_regime(-1))
+        above = O.fold_op(proj, R.Cell(**kw), below_threshold="fold", prepare=pair_threshold_regime(+1))
     except O.FoldFailure as f:
         return ("fold", f.outcome.status, f"{f.outcome.etype} {f.outcome.msg}"[:160])
 
